@@ -88,6 +88,13 @@ class C07(Prop):
                           # state's nodes changes between steps (each contract/split pair rotates it)
                           "nsteps": (3 if (par in S.SPECIAL_TREES and 4 <= len(par) <= 5) else rng.choice([1, 2, 3])) if len(par) <= 5 else 1,
                           "nterms": rng.choice([1, 2, 3])})
+        # ODE evolution modes (solve_ivp tolerances rtol=1e-3): the backward site updates of the two-site scheme are
+        # integrated with forward=True and a NEGATIVE duration; conservation is checked to 2e-2
+        for rep in range(ctx.scale(8, 80) * budget_scale):
+            par = rng.choice([[None, 0, 0], [None, 0, 1], [None, 0, 0, 0], [None, 0, 1, 1], [None, 0, 0, 1, 2]])
+            cases.append({"par": par, "kind": "tdvp2s", "sub": "run", "seed": rng.randrange(10 ** 9), "herm": True, "coeffs": False,
+                          "ttno_shuffle": rep % 2 == 0, "mode": rng.choice(["RK45", "RK23", "DOP853", "BDF"]), "nsteps": 2,
+                          "nterms": rng.choice([2, 3]), "tol": 2e-2})
         for rep in range(ctx.scale(16, 300) * budget_scale):
             cases.append({"par": [None, 0], "kind": "tdvp2s", "sub": "twonode", "seed": rng.randrange(10 ** 9), "herm": True,
                           "coeffs": rep % 2 == 0, "phys": [rng.choice([2, 3]), rng.choice([2, 3])], "bond": {1: rng.choice([1, 2, 3, 4])},
@@ -152,7 +159,7 @@ class C07(Prop):
                 if bad:
                     return f"{kind} step {k}: bond dimensions {m['bond_dims']} outside [1, {mb}]"
             return None
-        d = conservation_oracle(kind, ob, ob["hscale"])
+        d = conservation_oracle(kind, ob, ob["hscale"], TOL=case.get("tol", TOL))
         if d:
             return d
         for k, m in enumerate(ob["measure"]):
